@@ -1,6 +1,7 @@
 package drv
 
 import (
+	"strings"
 	"fmt"
 	"time"
 
@@ -35,7 +36,10 @@ type OpenOpts struct {
 func (i *Inst) dialOpts(o OpenOpts, cid string) wsraw.DialOpts {
 	d := wsraw.DialOpts{Addr: i.AddrFor(o.LocalIP), LocalIP: o.LocalIP, TLS: i.P.TLS, ConnID: cid, NTLM: o.NTLM}
 	if o.XFF != "" {
-		d.Headers = append(d.Headers, [2]string{"X-Forwarded-For", o.XFF})
+		// a newline separates header LINES (each proxy adds its own line): the list is the lines taken together
+		for _, line := range strings.Split(o.XFF, "\n") {
+			d.Headers = append(d.Headers, [2]string{"X-Forwarded-For", line})
+		}
 	}
 	if o.Basic != "" {
 		d.Headers = append(d.Headers, [2]string{"Authorization", "Basic " + b64std(o.Basic)})
